@@ -407,7 +407,14 @@ def _resolve_value(value, variables):
     return tuple(out)
 
 
-def _items_effect(items, P, variables):
+def _has_var(value):
+    return any(c[0] == 'var' or (c[0] == 'function' and _has_var(c[2])) for _, c in value)
+
+
+def _items_effect(items, P, variables, quirks=()):
+    if items:
+        # remember which item is the last one of the DOM block (the recorded last-semicolon finding is about items dropped behind the last written declaration)
+        items = [dict(it, dom_last=(i == len(items) - 1)) for i, it in enumerate(items)]
     if not P['keepAllProperties']:
         items = _effective(items)
     out = []
@@ -420,6 +427,8 @@ def _items_effect(items, P, variables):
         # validOnly=True: "if True only valid (Properties) are output. A Property is valid if it is a known Property with a valid value."
         if P['validOnly'] and not it['valid']:
             continue
+        if 'validvar' in quirks and P['validOnly'] and not P['resolveVariables'] and _has_var(it['value']):
+            continue   # model of the recorded finding C06-validonly-unresolved-variable
         if P['resolveVariables'] and variables:
             it = dict(it, value=_resolve_value(it['value'], variables))
         out.append(it)
@@ -436,7 +445,7 @@ def _variables_of(x, cssutils):
     return out
 
 
-def _rules_effect(x, P, variables):
+def _rules_effect(x, P, variables, quirks=()):
     out = []
     for nd in x:
         k = nd['k']
@@ -455,29 +464,29 @@ def _rules_effect(x, P, variables):
                 out.append(nd)
             continue
         if k == 'style':
-            nd = dict(nd, items=_items_effect(nd['items'], P, variables))
+            nd = dict(nd, items=_items_effect(nd['items'], P, variables, quirks))
             # keepEmptyRules=False: "defines if empty rules like e.g. a {} are kept in the resulting serialized sheet"
             if nd['items'] or P['keepEmptyRules']:
                 out.append(nd)
             continue
         if k == 'media':
-            nd = dict(nd, rules=_rules_effect(nd['rules'], P, variables))
+            nd = dict(nd, rules=_rules_effect(nd['rules'], P, variables, quirks))
             if nd['rules'] or P['keepEmptyRules']:
                 out.append(nd)
             continue
         if k == 'page':
             margins = []
             for m in nd['margins']:
-                m = dict(m, items=_items_effect(m['items'], P, variables))
-                if m['items'] or P['keepEmptyRules']:
+                m = dict(m, items=_items_effect(m['items'], P, variables, quirks))
+                if m['items'] or (P['keepEmptyRules'] and 'emptyblock' not in quirks):
                     margins.append(m)
-            nd = dict(nd, items=_items_effect(nd['items'], P, variables), margins=margins)
-            if nd['items'] or nd['margins'] or P['keepEmptyRules']:
+            nd = dict(nd, items=_items_effect(nd['items'], P, variables, quirks), margins=margins)
+            if nd['items'] or nd['margins'] or (P['keepEmptyRules'] and 'emptyblock' not in quirks):   # quirk: model of C06-keepemptyrules-page-fontface
                 out.append(nd)
             continue
         if k == 'fontface':
-            nd = dict(nd, items=_items_effect(nd['items'], P, variables))
-            if nd['items'] or P['keepEmptyRules']:
+            nd = dict(nd, items=_items_effect(nd['items'], P, variables, quirks))
+            if nd['items'] or (P['keepEmptyRules'] and 'emptyblock' not in quirks):
                 out.append(nd)
             continue
         out.append(nd)   # charset, import, namespace
@@ -516,10 +525,10 @@ def _uris(x, acc):
     return acc
 
 
-def expected(x, P, cssutils):
+def expected(x, P, cssutils, quirks=()):
     """-> list of admissible expected x-trees (more than one only where the documentation leaves a choice)"""
     variables = _variables_of(x, cssutils) if P['resolveVariables'] else {}
-    y = _rules_effect(x, P, variables)
+    y = _rules_effect(x, P, variables, quirks)
     if not P['keepUsedNamespaceRulesOnly']:
         return [y]
     # keepUsedNamespaceRulesOnly=True: "if True only namespace rules which are actually used are kept"; a namespace used only by rules that are not written may go or stay
@@ -667,7 +676,10 @@ def _decl_faults(xitems, vitems, P, page_with_margins):
             out.append('priority %r written for a declaration without priority' % (vd['prio'],))
         out += _value_faults(xd, vd, P)
     last_is_decl = bool(xitems) and xitems[-1]['k'] == 'decl'
-    out += _semicolon_faults([it for it in vitems if it['k'] == 'decl'], P, last_is_decl, page_with_margins)
+    sf = _semicolon_faults([it for it in vitems if it['k'] == 'decl'], P, last_is_decl, page_with_margins)
+    if sf and last_is_decl and P['omitLastSemicolon'] and not xitems[-1].get('dom_last', True):
+        sf = [d + ' [an item that is not written follows it in the DOM]' for d in sf]
+    out += sf
     return out
 
 
@@ -762,7 +774,7 @@ EXTRA = [
     ('hash-id', '#aabbcc, #abc { color: #ffffff }'),
     ('zeros', 'a { opacity: 0.5; margin: -0.5px .5em 0.0 00.50% 1.50 10.0px -.25em +0.5px 0.05 }'),
     ('import', '@import "a.css"; @import url(b.css); @import url("c d.css") print, screen; @import \'e.css\' "name";'),
-    ('import-case', '@IMPORT "a.css"; @i\\mport url(b.css); @MEDIA print { a { top: 1px } } @Page { margin: 1cm } @FONT-FACE { font-family: x } @NAMESPACE p "u";'),
+    ('import-case', '@IMPORT "a.css"; @i\\mport url(b.css); @NAMESPACE p "u"; @MEDIA print { a { top: 1px } } @Page { margin: 1cm } @FONT-FACE { font-family: x }'),
     ('charset', '@charset "utf-8"; a { content: "\xe9" }'),
     ('charset-latin', '@charset "iso-8859-1"; a { content: "\xe9€" }'),
     ('strings', 'a { content: "a" "b" \'c\'; font-family: "A B", serif, "x"; quotes: "\\"" "\'" }'),
@@ -791,29 +803,40 @@ def gen_spellings():
 
 
 def dom_sources(tier, seed):
-    """[(label, source text, info)] - deterministic"""
+    """[(label, source text, info)] - deterministic.
+    core (info['core'], both tiers): of the QUICK enumeration of the generator the rule-level sheets (every rule variant, every ordered pair of rule kinds) in 3 spellings,
+    one sheet per construct kind of the others, and the hand-written sheets - they get every assignment of the tier (thorough: all pairs);
+    thorough only: every third further sheet of the thorough enumeration in the default spelling - they get the defaults, the minified preset and the covering array"""
     out = []
-    sheets = gen.enumerate_sheets(tier, seed)
     sps = gen_spellings()
     seen_kinds = set()
-    for label, a in sheets:
+    core_sheets = set()
+    for label, a in gen.enumerate_sheets('quick', seed):
         kind = label.split(':')[0]
-        if tier != 'thorough':
-            # quick: the rule-level sheets (every rule variant, every ordered pair of rule kinds), one sheet per construct kind of the others
-            if not (label.startswith(('rule/', 'rules2/', 'full', 'decl')) or kind not in seen_kinds):
-                continue
+        if not (label.startswith(('rule/', 'rules2/', 'full', 'decl')) or kind not in seen_kinds):
+            continue
         seen_kinds.add(kind)
+        core_sheets.add(a)
         texts = set()
         for si, sp in enumerate(sps):
-            if tier != 'thorough' and si and not label.startswith(('rule/', 'full', 'decl', 'value/single', 'media/', 'import')):
+            if si and not label.startswith(('rule/', 'full', 'decl', 'value/single', 'media/', 'import')):
                 continue
             text = gen.render(a, sp)
             if text in texts:
                 continue
             texts.add(text)
-            out.append((label, text, {'sheet': gen.to_json(a), 'spelling': sp.describe()}))
+            out.append((label, text, {'sheet': gen.to_json(a), 'spelling': sp.describe(), 'core': True}))
     for label, text in EXTRA:
-        out.append(('extra/' + label, text, {}))
+        out.append(('extra/' + label, text, {'core': True}))
+    if tier == 'thorough':
+        k = 0
+        for label, a in gen.enumerate_sheets('thorough', seed):
+            if a in core_sheets:
+                continue
+            k += 1
+            if k % 3:
+                continue
+            out.append((label, gen.render(a, sps[0]), {'sheet': gen.to_json(a), 'spelling': {}, 'core': False}))
     return out
 
 
@@ -870,22 +893,35 @@ def evaluate(cssutils, label, src, assigns):
             res['skipped'] = 'the default round trip is not clean (C03)'
             return res
         cache = {}
+        reparsed = {}
         for alabel, assign in assigns:
             res['n'] += 1
             try:
                 P = apply(prefs, assign)
-                try:
-                    out = dom.cssText
-                except Exception as e:
-                    fails.append((CL_SER, assign, P, '%s: %s' % (type(e).__name__, str(e)[:200])))
-                    continue
-                text = _decode(dom, out)
+                out = None
+                for _attempt in range(3):
+                    try:
+                        out = dom.cssText
+                        break
+                    except Exception as e:
+                        msg = '%s: %s' % (type(e).__name__, str(e)[:200])
+                        fails.append((CL_SER, assign, P, msg))
+                        # the two recorded crashes would hide the rest of the assignment: go on without the preference that crashes (the crash itself stays reported)
+                        if _classify(label, src, CL_SER, P, msg) == K_ATKW:
+                            P = dict(P, defaultAtKeyword=True)
+                        elif _classify(label, src, CL_SER, P, msg) == K_LINENO:
+                            P = dict(P, lineNumbers=False)
+                        else:
+                            break
+                        assign = {k: v for k, v in P.items() if v != DEFAULTS[k]}
+                        apply(prefs, assign)
+                text = _decode(dom, out) if out is not None else None
                 # the same assignment without layout preferences
                 Q = dict(P)
                 for n_ in LAYOUT:
                     Q[n_] = DEFAULTS[n_]
                 qk = key(Q)
-                if qk not in cache:
+                if out is not None and qk not in cache:
                     apply(prefs, {k: v for k, v in Q.items() if v != DEFAULTS[k]})
                     try:
                         cache[qk] = tokens(_decode(dom, dom.cssText))
@@ -900,6 +936,11 @@ def evaluate(cssutils, label, src, assigns):
                 again = 'raises %s' % type(e).__name__
             if again != out0:
                 fails.append((CL_RESTORE, assign, P, 'after the assignment and useDefaults() the output differs: %r vs %r' % (_first_diff(_s(again), _s(out0)))))
+                # a fresh serializer, so that the following assignments are judged on their own (public API)
+                cssutils.setSerializer(cssutils.serialize.CSSSerializer())
+                prefs = cssutils.ser.prefs
+            if out is None:
+                continue
             # line numbers
             if P['lineNumbers']:
                 try:
@@ -913,24 +954,34 @@ def evaluate(cssutils, label, src, assigns):
             if tq is not None and tp != tq:
                 i = next((k for k in range(min(len(tp), len(tq))) if tp[k] != tq[k]), min(len(tp), len(tq)))
                 fails.append((CL_LAYOUT, assign, P, 'token %d: %r with the layout preferences, %r without | %r' % (i, tp[max(0, i - 2):i + 3], tq[max(0, i - 2):i + 3], text[:200])))
-            # well-formed
-            try:
-                v = view(text)
-            except Malformed as e:
-                fails.append((CL_WELL, assign, P, '%s | %r' % (e, text[:300])))
-                continue
-            # effect on the DOM
-            try:
-                d2 = _parse(cssutils, text)
-                p2 = norm_zero(gen.project(d2))
-            except Exception as e:
-                fails.append((CL_WELL, assign, P, 'reparse: %s: %s | %r' % (type(e).__name__, str(e)[:150], text[:300])))
+            # well-formed + effect on the DOM (both are functions of the text: cached per text)
+            if text not in reparsed:
+                try:
+                    v = view(text)
+                    try:
+                        reparsed[text] = (v, norm_zero(gen.project(_parse(cssutils, text))), None)
+                    except Exception as e:
+                        reparsed[text] = (v, None, 'reparse: %s: %s' % (type(e).__name__, str(e)[:150]))
+                except Malformed as e:
+                    reparsed[text] = (None, None, str(e))
+            v, p2, err = reparsed[text]
+            if err:
+                fails.append((CL_WELL, assign, P, '%s | %r' % (err, text[:300])))
                 continue
             ys = expected(x, P, cssutils)
             want = [norm_zero(projection(y)) for y in ys]
             if p2 not in want:
-                fails.append((CL_EFFECT, assign, P, '%s | %r' % (gen.diff(p2, want[0]), text[:300])))
-                continue
+                # the models of the recorded findings: the observed DOM must equal one of them EXACTLY to count as that finding
+                for quirks in (('validvar',), ('emptyblock',), ('validvar', 'emptyblock')):
+                    qs = expected(x, P, cssutils, quirks)
+                    qw = [norm_zero(projection(y)) for y in qs]
+                    if p2 in qw:
+                        fails.append((CL_EFFECT, assign, P, '[model:%s] %s | %r' % ('+'.join(quirks), gen.diff(p2, want[0]), text[:300])))
+                        ys, want = qs, qw
+                        break
+                else:
+                    fails.append((CL_EFFECT, assign, P, '%s | %r' % (gen.diff(p2, want[0]), text[:300])))
+                    continue
             y = ys[want.index(p2)]
             sf = spelling_faults(y, v, P)
             for d in sf[:3]:
@@ -961,7 +1012,37 @@ def _classify(label, src, clause, P, detail):
     return None
 
 
-KNOWN = []
+def _plus_number(src):
+    """the prelude of a rule of the source (selector, unknown at-rule) holds a '+' that stands before a number: the an+b of a functional pseudo-class, '+1 + 1' in an
+    unknown at-rule - a '+' that is not a selector combinator"""
+    try:
+        for nd in walk(view(src)):
+            t = nd['prelude']
+            if any(a == ('CHAR', '+') and b[0] in ('NUMBER', 'DIMENSION', 'PERCENTAGE') for a, b in zip(t, t[1:])):
+                return True
+    except Malformed:
+        pass
+    return False
+
+
+K_ATKW = 'C06-defaultatkeyword-crash'
+K_LINENO = 'C06-linenumbers-empty-separator'
+K_SPECIF = 'C06-indentspecificities-state'
+K_SEMI = 'C06-last-semicolon-after-dropped-item'
+K_COMB = 'C06-combinator-spacer-glues-plus'
+K_EMPTY = 'C06-keepemptyrules-page-fontface'
+K_VALIDVAR = 'C06-validonly-unresolved-variable'
+
+KNOWN = [
+    (K_ATKW, lambda label, src, cl, P, d: cl == CL_SER and not P['defaultAtKeyword'] and "has no attribute '_keyword'" in d),
+    (K_LINENO, lambda label, src, cl, P, d: cl == CL_SER and P['lineNumbers'] and P['lineSeparator'] == '' and 'empty separator' in d),
+    (K_SPECIF, lambda label, src, cl, P, d: cl == CL_RESTORE and P['indentSpecificities']),
+    (K_SEMI, lambda label, src, cl, P, d: cl == CL_SPELL and P['omitLastSemicolon'] and (P['validOnly'] or not P['keepComments']) and d.startswith('; after the last declaration')
+     and '[an item that is not written follows it in the DOM]' in d),
+    (K_COMB, lambda label, src, cl, P, d: cl in (CL_LAYOUT, CL_EFFECT) and P['selectorCombinatorSpacer'] == '' and _plus_number(src) and ("'+" in d)),
+    (K_EMPTY, lambda label, src, cl, P, d: cl == CL_EFFECT and P['keepEmptyRules'] and d.startswith('[model:') and 'emptyblock' in d.split(']')[0]),
+    (K_VALIDVAR, lambda label, src, cl, P, d: cl == CL_EFFECT and P['validOnly'] and not P['resolveVariables'] and d.startswith('[model:') and 'validvar' in d.split(']')[0]),
+]
 
 
 def _worker(args):
@@ -969,10 +1050,11 @@ def _worker(args):
     cssutils = _quiet()
     srcs = dom_sources(tier, seed)
     assigns = assignments(tier, seed)
+    assigns_rest = [a for a in assigns if a[0] in ('defaults', 'minified', 'pairwise-row')]
     res = {'n': 0, 'doms': 0, 'skipped': {}, 'fails': [], 'known': {}, 'kinds': set(), 'nfail': {}}
     try:
         for label, src, info in srcs[lo:hi]:
-            r = evaluate(cssutils, label, src, assigns)
+            r = evaluate(cssutils, label, src, assigns if info.get('core') else assigns_rest)
             res['n'] += r['n']
             if r['skipped']:
                 key_ = r['skipped'].split(':')[0]
@@ -1045,8 +1127,9 @@ def matrix(ctx):
                         'rule': 'every DOM (parsed from a generator sheet in up to 3 spellings or from a hand-written sheet) is serialised under every assignment: no exception, line numbers strip cleanly, '
                                 'S-free tokens equal those without the layout preferences, an independent token-level reading finds well-formed rules and declarations, the reparse projects to the DOM '
                                 'with the documented effects applied, the spelling preferences show as documented, useDefaults() restores the default bytes; distinct = assignments x construct kinds of the DOMs',
-                        'bound': '%d assignments (%s) x %d DOM sources (%d used, skipped %s): %s; %d hand-written sheets' % (
-                            len(assigns), ', '.join('%d %s' % (v, k) for k, v in sorted(by.items())), n, doms, json.dumps(skipped, sort_keys=True), gen.ENUMERATION[ctx.tier][:160], len(EXTRA)),
+                        'bound': '%d assignments (%s; the pairs only on the %d core sources) x %d DOM sources (%d used, skipped %s): %s; %d hand-written sheets' % (
+                            len(assigns), ', '.join('%d %s' % (v, k) for k, v in sorted(by.items())), sum(1 for x in srcs if x[2].get('core')), n, doms, json.dumps(skipped, sort_keys=True),
+                            gen.ENUMERATION[ctx.tier][:160], len(EXTRA)),
                         'samples': [{'assignment': {'keepComments': False, 'omitLastSemicolon': False}, 'source': 'a { color: red; /*last*/ }'}],
                         'exhaustive': False, 'wall_s': round(time.time() - t0, 1), 'known_class_evaluations': {k: v['count'] for k, v in sorted(known.items())}, 'failures': nfail})
 
@@ -1085,3 +1168,37 @@ def frame(ctx):
         ctx.violation(CL_FRAME, 'useDefaults() does not reset every preference: %r' % {k: v for k, v in vars(q).items() if v != vars(p).get(k)}, True, {})
     ctx.bounded.append({'name': 'preference frame', 'evaluations': n, 'distinct_nontrivial': len(NAMES), 'rule': 'documented names == attributes == covered names; documented defaults; useMinified within the frame; useDefaults resets all',
                         'samples': [{'documented': sorted(doc)[:5]}], 'bound': '%d preferences' % len(NAMES), 'exhaustive': True})
+
+
+# ------------------------------------------------------------------------------------------------------------------ witnesses
+
+WITNESSES = [
+    (K_ATKW, '@media print{a{top:0}}', {'defaultAtKeyword': False}),
+    (K_LINENO, 'a{top:0}', {'lineNumbers': True, 'lineSeparator': ''}),
+    (K_SPECIF, 'a{top:0} a.b{top:1px}', {'indentSpecificities': True}),
+    (K_SEMI, 'a{top:0;/*c*/}', {'keepComments': False}),
+    (K_COMB, '@bar 1 + 1; a:nth-child(2n + 1){top:0}', {'selectorCombinatorSpacer': ''}),
+    (K_EMPTY, '@page{} @font-face{} a{}', {'keepEmptyRules': True}),
+    (K_VALIDVAR, '@variables{c:red} a{color:var(c)}', {'validOnly': True, 'resolveVariables': False}),
+]
+
+
+def witnesses(ctx):
+    """one minimal witness per recorded finding: KNOWN-FINDING while it still fails (a witness that passes means the entry must be flipped to status fixed)"""
+    cssutils = _quiet()
+    n = 0
+    try:
+        for kid, src, assign in WITNESSES:
+            n += 1
+            cssutils.setSerializer(cssutils.serialize.CSSSerializer())
+            r = evaluate(cssutils, 'witness/' + kid, src, [('witness', assign)])
+            hit = any(_classify('witness', src, cl, P, d) == kid for cl, a, P, d in r['fails'])
+            ctx.known_finding(kid, hit)
+            for cl, a, P, d in r['fails']:
+                if _classify('witness', src, cl, P, d) is None:
+                    ctx.violation(cl, 'witness %r under %r: %s' % (src, assign, d), True, {'source': src, 'assignment': assign})
+    finally:
+        cssutils.setSerializer(cssutils.serialize.CSSSerializer())
+        cssutils.log.raiseExceptions = True
+    ctx.bounded.append({'name': 'witnesses of the recorded findings', 'evaluations': n, 'distinct_nontrivial': n, 'rule': 'one minimal (sheet, assignment) per recorded finding',
+                        'samples': [{'source': WITNESSES[0][1], 'assignment': WITNESSES[0][2]}], 'bound': '%d witnesses' % n, 'exhaustive': True})
